@@ -339,6 +339,11 @@ def run_shard(shard, tier, seed):
             for bad in ["no_such_tag", "no_such_tag[3]", alpha[0].split("{")[0] + "{x}"] + refused:
                 mid = len(alpha) // 2
                 lists += [(bad,) + tuple(alpha), tuple(alpha[:mid]) + (bad,) + tuple(alpha[mid:]), tuple(alpha) + (bad,), (bad, alpha[0], bad, alpha[-1])]
+            # many requests with long paths and small values in one call: the packets are bounded by what is SENT, not by the replies
+            small_long = sorted((x for x in valid if Q.request_bytes(proj, x) <= 8), key=lambda x: (-len(x), x))[:3]
+            for x in small_long:
+                for k in (conn // 12, conn // 7):
+                    lists.append((x,) * k)
             for lst in lists:
                 out = call(d.read, *lst)
                 wants = [Q.read_expect(proj, x) for x in lst]
